@@ -10,6 +10,20 @@ NOT_DECIDED = ["BufRead::lines, HashMap, str::trim and split_whitespace semantic
 CONFIG_SENSITIVE = True
 
 
+def only_maps(r):
+    """collect(map(..map(split_whitespace(x), f).., g)): nothing but element-wise maps sits between the splitter and the collection
+    (a whitelist: any other adaptor drops, reorders or merges items)"""
+    t = strip_refs(call_args(r)[0]) if is_call(r, "::collect") and call_args(r) else None
+    for _ in range(6):
+        if is_call(t, "Iterator>::map", "::map") and len(call_args(t)) == 2:
+            t = strip_refs(call_args(t)[0])
+        elif is_call(t, "str>::split_whitespace"):
+            return True
+        else:
+            return False
+    return False
+
+
 def run(ctx):
     fx = ctx.fx
     if ctx.config == "nodefault":
@@ -79,8 +93,7 @@ def run(ctx):
                         for cl in clo:
                             for cp in ret_paths(ctx.paths(cl[2]) or []):
                                 r = cp.end[1]
-                                okc = okc or (is_call(r, "::collect") and bool(find_calls(r, "str>::split_whitespace")) and mentions(r, lambda s: s == ("param", 2))
-                                              and not find_calls(r, "::rev", "::take", "::skip", "::filter", "::step_by"))
+                                okc = okc or (is_call(r, "::collect") and bool(find_calls(r, "str>::split_whitespace")) and mentions(r, lambda s: s == ("param", 2)) and only_maps(r))
                         dflt = is_call(t, "Option::map_or", "Option::map_or_else", "Option::map") and bool(find_calls(t, "Vec::new", "Vec::<T>::new") or True)
                         ok = okc and dflt
                         why = "list %s is not the whitespace-separated items of map.get(key) in order (empty when absent)" % f
@@ -93,7 +106,7 @@ def run(ctx):
                                 if is_call(r, "::collect") and find_calls(r, "str>::split_whitespace"):
                                     via = mentions(r, lambda s: s[0] == "const" and isinstance(s[2], tuple) and s[2][0] == "fn" and s[2][1] == c["via"])
                                     res = "Result" in " ".join(r[2])
-                                    okc = okc or (via and res and not find_calls(r, "::flatten", "::filter_map", "::filter", "::rev", "::take", "::skip", "::take_while", "::skip_while", "::map_while", "::step_by", "::dedup"))
+                                    okc = okc or (via and res and only_maps(r))
                         ok = okc and has_try(t)
                         why = "%s is not split_whitespace().map(%s).collect::<Result<Vec,_>>()? (any bad item fails the record)" % (f, c["via"])
                 ctx.check(ok, "D1-KEY-FIELD", DK, "field=%s" % f, "%s <- %s (%s)" % (f, key, c["kind"]), why, fn_span(body))
